@@ -49,6 +49,14 @@ type Machine struct {
 	notes     map[string]Val
 	pendingAx []string
 	frames    []*frame
+	// preemption at lock acquisitions (C13 interleavings): before thread A's k-th acquisition attempt
+	// another operation B runs to completion
+	preemptAt  int
+	preemptFn  *Func
+	lockAcq    int
+	inPreempt  bool
+	preemptRan bool
+	preHeld    map[*Cell]lockState
 	keepSymBounds bool // harness asked to keep symbolic slice bounds symbolic (sizes-only models)
 }
 
